@@ -167,6 +167,8 @@ static int32_t wr_data(struct jls_core_fsr_s * self) {
             data_const |= (data_const << 4);
         }
         omit_data = is_mem_const(self->data->data, data_length, data_const);
+        // samples beyond the last whole summary entry only exist in the data chunk.
+        omit_data &= (0 == (self->data->header.entry_count % self->parent->signal_def.sample_decimate_factor));
     }
 
     // cannot omit first chunk, which stores the sample_id offset.
